@@ -213,29 +213,157 @@ def run(ctx, rep):
     rep.floor("C05.template", rep.instances("C05.template"), 19)
 
     # ---------- unwinder ----------
+    # the deferred-action enum is found by its use (pushed on the interpreter's Vec), and what each variant means is read off
+    # the unwinder; the templates above were compared with the semantics through that derived meaning, so a variant wired to
+    # the wrong operation shows there.  Here: every variant is unwound, to one recognised operation applied to its own payload.
     unw = r["unwinder"]
     if not unw:
-        rep.anchor("C05.unwinder", "switch on CallStack in exec_with_tracker")
-    for v, want in UNWINDER.items():
+        rep.anchor("C05.unwinder", "switch on the deferred-action enum in exec_with_tracker")
+    dadt = F.adts.get(r.get("deferred"))
+    variants = [v["name"] for v in dadt["variants"]] if dadt else sorted(unw)
+    seen_ops = {}
+    for v in variants:
         got = unw.get(v)
         if got is None:
-            rep.violation("C05.unwinder", v, "CallStack::%s is never unwound" % v, fn.where())
+            rep.violation("C05.unwinder", v, "deferred action %s is pushed but never unwound" % v, fn.where())
             continue
         names = [n for n, a in got["ops"]]
+        op = r["push_op"].get(v, "?")
         argok = all(("@%s.0" % v) in a[0] for n, a in got["ops"] if a)
-        if names != want or (v == "Goto") != got["sets_ip"] or not argok:
-            rep.violation("C05.unwinder", v, "CallStack::%s runs %s (sets ip: %s), expected %s" % (v, got["ops"], got["sets_ip"], want), fn.where())
+        known = (got["sets_ip"] and not names) or names in (["move_write_frame_to_read"], ["drop_read_frame"], ["copy", "fwd"], ["back"], ["fwd"], ["skip"])
+        if not known or not argok or got["sets_ip"] and names:
+            rep.violation("C05.unwinder", v, "deferred action %s runs %s (continues with a node: %s) — not one machine operation applied to the action's own "
+                          "payload" % (v, got["ops"], got["sets_ip"]), fn.where())
+        elif op in seen_ops:
+            rep.violation("C05.unwinder", v, "deferred actions %s and %s are unwound to the same operation %s" % (seen_ops[op], v, op), fn.where())
         else:
-            rep.ok("C05.unwinder", v, names or "ip := node")
-    for v in unw:
-        if v not in UNWINDER:
-            rep.violation("C05.unwinder", v + ":UNREVIEWED", "unreviewed deferred operation CallStack::%s" % v, fn.where())
+            seen_ops[op] = v
+            rep.ok("C05.unwinder", "%s → %s" % (v, op), None)
+    need = {"run", "move_write_frame_to_read", "drop_read_frame", "copyfwd", "back"}
+    miss = need - set(seen_ops)
+    if miss and unw:
+        rep.violation("C05.unwinder", "missing:" + ",".join(sorted(miss)), "no deferred action is unwound to %s" % sorted(miss), fn.where())
 
     # ---------- exec_jet ----------
-    ej = F.fn("simplicity::bit_machine::BitMachine::exec_jet")
-    if ej is None:
+    # Stated over what the code does, not over the names of its local helpers: the C jet is called with (a write frame
+    # created by CFrameItem::new_write, a read frame created by CFrameItem::new_read, env); those frames and their buffers
+    # are sized from target_ty / source_ty of this very jet; the jet's boolean decides between Err(JetFailed) without
+    # touching the machine and writing the output into the machine (a machine write operation) followed by Ok.
+    ej0 = F.fn("simplicity::bit_machine::BitMachine::exec_jet")
+    if ej0 is None:
         rep.anchor("C05.jet", "BitMachine::exec_jet")
         return FINISH
+    JV = tuple(tmpl.MACHINE_OPS) + ("new_read", "new_write", "uword_width", "to_bit_width", "source_ty", "target_ty", "c_jet_ptr", "c_jet_env",
+                                   "sanity_checks", "c_readBit", "c_writeBit")
+    ej = F.inlined(ej0, JV, depth=3)
+    Tj = Terms(ej)
+    ind = [b for b in ej.rpo() if ej.blocks[b]["t"]["k"] == "call" and "indirect" in ej.blocks[b]["t"]["f"]]
+    if len(ind) != 1:
+        rep.violation("C05.jet", "call", "expected one indirect call of the C jet, found %d" % len(ind), ej0.where())
+        return FINISH
+    t = ej.blocks[ind[0]]["t"]
+    a = [Tj.operand(x) for x in t["args"]]
+
+    def made_by(term, ctor):
+        return any(c[2] == ctor and "CFrameItem" in c[1] for c in calls_in(term))
+    if len(a) == 3 and made_by(a[0], "new_write") and not made_by(a[0], "new_read") and made_by(a[1], "new_read") and not made_by(a[1], "new_write"):
+        rep.ok("C05.jet", "call(dst=output write frame, src=input read frame, env)", None)
+    else:
+        rep.violation("C05.jet", "call:args", "the C jet is not called with (write frame, read frame, env): (%s)" % ", ".join(show(x)[:60] for x in a), ej0.where())
+
+    def width_of(term):
+        names = {c[2] for c in calls_in(term)}
+        if vcc.param_roots(term, fm) - {2}:
+            return "?"
+        if "to_bit_width" in names and "source_ty" in names and "target_ty" not in names:
+            return "source"
+        if "to_bit_width" in names and "target_ty" in names and "source_ty" not in names:
+            return "target"
+        return "?"
+    # the frames handed to the jet
+    for k, ctor, want_w, label in ((0, "new_write", "target", "get_output_frame"), (1, "new_read", "source", "get_input_frame")):
+        cts = [c for c in calls_in(a[k]) if c[2] == ctor and "CFrameItem" in c[1]] if len(a) == 3 else []
+        if len(cts) != 1:
+            rep.violation("C05.jet", label + ":missing", "the %s frame handed to the C jet is not built by one CFrameItem::%s" % ("output" if k == 0 else "input", ctor), ej0.where())
+            continue
+        w = width_of(cts[0][3][0])
+        if w == want_w:
+            rep.ok("C05.jet", label, "%s frame of %s_ty().to_bit_width() bits" % ("write" if k == 0 else "read", want_w))
+        else:
+            rep.violation("C05.jet", label, "the %s frame's width is %s, expected %s_ty().to_bit_width() of the jet"
+                          % ("output" if k == 0 else "input", show(cts[0][3][0])[:80], want_w), ej0.where())
+    # buffers: every uword_width(..) is taken of one of the two widths
+    for cs in ej.calls():
+        if cs.name == "uword_width" and cs.args:
+            w = width_of(Tj.operand(cs.args[0]))
+            if w == "?":
+                rep.violation("C05.jet", "uword_width", "a jet buffer is sized by %s, not by a width of the jet's own source or target type"
+                              % show(Tj.operand(cs.args[0]))[:80], cs.where())
+    # verdict
+    dest = t.get("dest")
+    sw = None
+    for b in ej.rpo():
+        tt = ej.blocks[b]["t"]
+        if tt["k"] != "switch" or not ej.dominates(ind[0], b) or b == ind[0]:
+            continue
+        d = Tj.operand(tt["discr"])
+        nots = 0
+        while isinstance(d, tuple) and d and d[0] == "un" and d[1] == "Not":
+            nots += 1
+            d = d[2]
+        if isinstance(d, tuple) and d and d[0] == "icall":
+            sw = (b, tt, nots)
+            break
+    if sw is None:
+        for b in ej.rpo():
+            tt = ej.blocks[b]["t"]
+            if tt["k"] == "switch" and ej.dominates(ind[0], b) and b != ind[0]:
+                nots = 0
+                cur = tt["discr"]
+                if cur.get("k") in ("copy", "move"):
+                    for (bb, i_, kind, pl) in ej.defs().get(cur["p"][0], []):
+                        if kind == "assign" and pl[2].get("k") == "un" and pl[2].get("op") == "Not":
+                            nots = 1
+                sw = (b, tt, nots)
+                break
+    if sw is None:
+        rep.violation("C05.jet", "verdict", "the boolean returned by the C jet is not branched on: a failing jet would be treated as success", ej0.where())
+    else:
+        b, tt, nots = sw
+        zero = [tg for v, tg in tt["targets"] if v == "0"]
+        zero = zero[0] if zero else None
+        other = tt["otherwise"] if zero is not None else None
+        fail_target, ok_target = (zero, other) if nots % 2 == 0 else (other, zero)
+
+        def region(x):
+            return ej.dominated_by(x) if x is not None else set()
+        WRITES = {"write_bit", "write_u8", "write_bytes", "write_value"}
+
+        def commits(reg):
+            return any(cs.name in WRITES and cs.callee.startswith(tmpl.BM) for cs in ej.calls(reg))
+
+        def builds(reg, variant):
+            for bb in reg:
+                for st in ej.blocks[bb]["s"]:
+                    if st[0] == "=" and st[2].get("k") == "agg" and st[2].get("variant") == variant and "Result" in str(st[2].get("adt")):
+                        return True
+            return False
+        commits_ok, commits_fail = commits(region(ok_target)), commits(region(fail_target))
+        if commits_ok and not commits_fail and builds(region(fail_target), "Err") and builds(region(ok_target), "Ok"):
+            rep.ok("C05.jet", "verdict: false -> Err(JetFailed), true -> write the output into the machine and Ok", None)
+        else:
+            rep.violation("C05.jet", "verdict", "the C jet's verdict is mishandled: on success commit=%s Ok=%s, on failure commit=%s Err=%s"
+                          % (commits_ok, builds(region(ok_target), "Ok"), commits_fail, builds(region(fail_target), "Err")), ej0.where())
+        # what is written back is read from the buffer the jet wrote: a read frame of the target width
+        for cs in ej.calls(region(ok_target)):
+            if cs.name == "new_read" and "CFrameItem" in cs.callee:
+                w = width_of(Tj.operand(cs.args[0]))
+                if w == "target":
+                    rep.ok("C05.jet", "update_active_write_frame", "reads back target_ty().to_bit_width() bits")
+                else:
+                    rep.violation("C05.jet", "update_active_write_frame", "the output is read back with width %s, expected target_ty().to_bit_width()"
+                                  % show(Tj.operand(cs.args[0]))[:80], cs.where())
+    return FINISH
     Tj = Terms(ej)
     want = {"get_input_frame": ("source_ty", 1), "get_output_frame": ("target_ty", 0), "update_active_write_frame": ("target_ty", 1)}
     found = set()
